@@ -62,7 +62,7 @@ def caches(ctx):
     from . import C14
 
     _own(ctx)
-    for r in (C14.rule_K2, C14.rule_K3, C14.rule_K4):
+    for r in (C14.rule_K2, C14.rule_K3, C14.rule_K4, C14.rule_K6):
         imported(ctx, r)
 
 
